@@ -12,7 +12,7 @@ StackOf(js) == [i \in 1..Len(js) |-> LayerOf(js[i])]
 Sig(js) == IF js = <<>> THEN "plain" ELSE IF Len(js) = 2 THEN "crc+cobs" ELSE js[1].l
 \* the specification's model of each logged algorithm must reproduce the catalogue check value
 AlgsOK(js) == \A i \in 1..Len(js) : js[i].l = "crc" => CrcLE(AlgOf(js[i].alg), Check9, js[i].s) = js[i].alg.check
-SetToSortedTags(S) == LET order == <<"crcmodel", "panic", "thr", "bytes", "canary", "size", "user">> IN
+SetToSortedTags(S) == LET order == <<"crcmodel", "panic", "thr", "bytes", "canary", "size", "user", "undo", "iothr", "iobytes">> IN
    SelectSeq(order, LAMBDA t : t \in S)
 
 \* tags of one outcome o against the functional output full
@@ -21,6 +21,12 @@ OutTags(o, full) ==
       fits == ~bounded \/ o.cap >= Len(full)
       r == o.res IN
   IF Has(r, "err") /\ r.err = "panic" THEN {"panic"}
+  ELSE IF o.storage = "undo" THEN {}          \* judged in UndoTags (needs the value)
+  ELSE IF o.storage \in {"io", "eio"} THEN
+       \* a byte writer with room for cap bytes: everything or an error; what it received is a prefix of the output
+       (IF o.cap >= Len(full) THEN (IF r.ok = 1 /\ r.bytes = full THEN {} ELSE {"iobytes"})
+        ELSE IF r.ok # 0 THEN {"iothr"}
+        ELSE IF Len(r.written) <= o.cap /\ r.written = SubSeq(full, 1, Len(r.written)) THEN {} ELSE {"iobytes"})
   ELSE IF o.storage = "size" THEN (IF r.ok = 1 /\ r.size = Len(full) THEN {} ELSE {"size"})
   ELSE IF ~fits THEN (IF r.ok = 0 /\ r.err = "BufferFull" THEN {} ELSE {"thr"})
   ELSE IF r.ok # 1 THEN {"thr"}
@@ -35,7 +41,10 @@ Judge(e) ==
   CASE e.op = "serb" ->
          LET full == TLCEval(Full(StackOf(e.stack), Enc(e.shape, e.value)))          \* computed once per event
              T == TLCEval([i \in 1..Len(e.outs) |-> OutTags(e.outs[i], full)])
-             tags == UNION {T[i] : i \in 1..Len(e.outs)} \cup (IF AlgsOK(e.stack) THEN {} ELSE {"crcmodel"})
+             undo == {i \in 1..Len(e.outs) : e.outs[i].storage = "undo"}
+             \* undoing the layers in reverse order recovers the value and leaves nothing over
+             undoBad == \E i \in undo : LET r == e.outs[i].res IN ~(r.ok = 1 /\ r.value = e.value /\ r.rest = 0)
+             tags == UNION {T[i] : i \in 1..Len(e.outs)} \cup (IF AlgsOK(e.stack) THEN {} ELSE {"crcmodel"}) \cup (IF undoBad THEN {"undo"} ELSE {})
              firstbad == IF \A i \in 1..Len(e.outs) : T[i] = {} THEN 0 ELSE CHOOSE i \in 1..Len(e.outs) : T[i] # {} /\ \A k \in 1..(i-1) : T[k] = {}
          IN [ok |-> tags = {}, exp |-> [bad |-> SetToSortedTags(tags), want |-> [sig |-> Sig(e.stack), full |-> full, first_bad_out |-> firstbad]]]
     [] e.op = "userflavor" ->
